@@ -236,121 +236,177 @@ end Tumfl.Gen
 
 # --------------------------------------------------------------------------- expression ladder (static read of parser.py)
 def extract_ladder(rep: Report) -> str:
-    import ast as pyast
-    from tumfl.AST import BinaryOperand, BinOp, Name, UnaryOperand, UnOp
-    from tumfl.parser import Parser
-    from tumfl.Token import Token, TokenType
+    """The expression ladder, read off the BEHAVIOUR of the real parser (so that a refactoring of parser.py that keeps the behaviour keeps the table):
+    which token types are binary / unary operators (by parsing `x = a OP b` / `x = OP a`), which binary operators bind tighter than which and how each
+    associates (by parsing `a o1 b o2 c` for every ordered pair), which bind tighter than a unary operator (`- a o b`), and the block-end token types
+    (`return` directly followed by the token is accepted as an empty return list)."""
+    import tumfl
+    from tumfl.AST import BinOp, UnOp
+    from tumfl.error import TumflError
+    from tumfl.Token import TokenType
 
-    src = (REPO / "tumfl" / "parser.py").read_text()
-    tree = pyast.parse(src)
-    cls = next(n for n in tree.body if isinstance(n, pyast.ClassDef) and n.name == "Parser")
-    methods = {n.name: n for n in cls.body if isinstance(n, pyast.FunctionDef)}
+    def parse_exp(text: str):
+        import contextlib
+        import io
+        with contextlib.redirect_stderr(io.StringIO()):
+            try:
+                ast = tumfl.parse("x = " + text)
+            except TumflError:
+                return None
+            except RecursionError:
+                return None
+        st = ast.statements[0] if ast.statements else None
+        es = getattr(st, "expressions", None)
+        return es[0] if es and len(es) == 1 else None
 
-    def tt_names(node) -> list[str]:
-        if isinstance(node, pyast.Tuple):
-            return [e.attr for e in node.elts]
-        return [node.attr]
-
-    def single_return_call(m):
-        body = [b for b in m.body if not (isinstance(b, pyast.Expr) and isinstance(b.value, pyast.Constant))]
-        if len(body) == 1 and isinstance(body[0], pyast.Return) and isinstance(body[0].value, pyast.Call):
-            return body[0].value
-        return None
-
-    levels = []
-    cur = "_parse_exp"
-    seen = set()
-    while True:
-        if cur in seen or cur not in methods:
-            rep.problem("Ladder", f"ladder does not reach the unary level (stuck at {cur})")
-            break
-        seen.add(cur)
-        call = single_return_call(methods[cur])
-        if call is None or not isinstance(call.func, pyast.Attribute):
-            break
-        helper = call.func.attr
-        if helper.endswith("parse_left_associative_binop") and len(call.args) == 2:
-            levels.append((cur, False, tt_names(call.args[0]), call.args[1].attr, None))
-            cur = call.args[1].attr
-        elif helper.endswith("parse_right_associative_binop") and len(call.args) == 3:
-            levels.append((cur, True, tt_names(call.args[0]), call.args[1].attr, call.args[2].attr))
-            if call.args[1].attr == "_parse_atom":
-                break
-            cur = call.args[1].attr
-        else:
-            break
-    # the walk ends at _parse_un_exp (not a single call); _parse_pow_exp is read on its own
-    bin_levels = list(levels)
-    pow_call = single_return_call(methods["_parse_pow_exp"]) if "_parse_pow_exp" in methods else None
-    pow_level = None
-    if (pow_call is not None and isinstance(pow_call.func, pyast.Attribute) and pow_call.func.attr.endswith("parse_right_associative_binop")
-            and len(pow_call.args) == 3):
-        pow_level = ("_parse_pow_exp", True, tt_names(pow_call.args[0]), pow_call.args[1].attr, pow_call.args[2].attr)
-    if pow_level is None or pow_level[3] != "_parse_atom" or pow_level[4] != "_parse_un_exp":
-        rep.problem("Ladder", "_parse_pow_exp is not `right-assoc(types, _parse_atom, _parse_un_exp)`", level=str(pow_level))
-        pow_level = pow_level or ("_parse_pow_exp", True, [], "", "")
-    levels = bin_levels + [pow_level]
-    un = methods.get("_parse_un_exp")
-    un_src = pyast.unparse(un) if un else ""
-    if "self._parse_un_exp()" not in un_src or "return self._parse_pow_exp()" not in un_src:
-        rep.problem("Ladder", "_parse_un_exp does not have the shape `if unary: eat; UnOp(tok, self._parse_un_exp()) else self._parse_pow_exp()`")
-    un_types = []
-    for n in pyast.walk(un):
-        if isinstance(n, pyast.Compare) and isinstance(n.ops[0], pyast.In):
-            un_types = tt_names(n.comparators[0])
-    # the level chain must be: each level's base is the next level's method; right-assoc binary levels re-enter themselves
-    chain_ok = True
-    for (m, right, _tys, base, operand), nxt in zip(bin_levels, [l[0] for l in bin_levels[1:]] + ["_parse_un_exp"]):
-        if base != nxt:
-            chain_ok = False
-        if right and operand != m:
-            rep.problem("Ladder", f"right-associative level {m} does not re-enter itself for its right operand", operand=operand)
-    if not chain_ok:
-        rep.problem("Ladder", "level methods are not chained base-to-next", levels=str([(l[0], l[3]) for l in levels]))
-    tok = Token(TokenType.NAME, "a", 1, 1)
-    a = Name(tok, "a")
+    fixed = [t for t in TokenType if isinstance(t.value, str) and t.value and t.name not in ("NAME", "NUMBER", "STRING", "EOF")]
     bmap, umap = [], []
-    for t in TokenType:
-        try:
-            bmap.append((t.name, BinOp.from_token(Token(t, t.value, 1, 1), a, a).op.value))
-        except Exception:  # noqa: BLE001
-            pass
-        try:
-            umap.append((t.name, UnOp.from_token(Token(t, t.value, 1, 1), a).op.value))
-        except Exception:  # noqa: BLE001
-            pass
-    bd = dict(bmap)
-    for m, right, tys, base, operand in levels:
-        for ty in tys:
-            if ty not in bd:
-                rep.problem("Ladder", f"token type {ty} of level {m} has no BinaryOperand", level=m)
-    ud = dict(umap)
-    un_map = [(t, ud[t]) for t in un_types if t in ud]
-    if len(un_map) != len(un_types):
-        rep.problem("Ladder", "a unary token type has no UnaryOperand", types=un_types)
-    lv = ", ".join("([" + ", ".join(lstr(bd.get(t, "?")) for t in tys) + "], " + ("true" if right else "false") + ")"
-                   for m, right, tys, base, operand in bin_levels)
-    pw = ", ".join(lstr(bd.get(t, "?")) for t in (levels[-1][2] if levels else []))
-    bt = ", ".join(f"({lstr(k)}, {lstr(v)})" for k, v in bmap)
-    ut = ", ".join(f"({lstr(k)}, {lstr(v)})" for k, v in un_map)
-    be = ", ".join(lstr(t.name) for t in Parser._BLOCK_END_TYPES)
-    rep.info["ladder"] = {"levels": [(l[0], l[1], l[2]) for l in levels]}
-    return f"""/-! GENERATED by harness/extract.py from /repo (tumfl/parser.py read statically, from_token maps evaluated) - do not edit. -/
+    for t in fixed:
+        e = parse_exp(f"a {t.value} b")
+        if isinstance(e, BinOp) and type(e.left).__name__ == "Name" and type(e.right).__name__ == "Name":
+            bmap.append((t.name, e.op.value, t.value))
+        e = parse_exp(f"{t.value} a")
+        if isinstance(e, UnOp):
+            umap.append((t.name, e.op.value, t.value))
+    if not bmap or not umap:
+        rep.problem("Ladder", "no binary or no unary operator found by probing the parser")
+    ops = [sp for _, _, sp in bmap]
+    sym = {sp: v for _, v, sp in bmap}
+
+    def top(text: str):
+        e = parse_exp(text)
+        return e if isinstance(e, (BinOp, UnOp)) else None
+
+    def is_atom(e) -> bool:
+        return type(e).__name__ == "Name"
+
+    # left[o1][o2]: `a o1 b o2 c` groups as (a o1 b) o2 c
+    left = {}
+    for o1 in ops:
+        for o2 in ops:
+            e = top(f"a {o1} b {o2} c")
+            if not isinstance(e, BinOp):
+                rep.problem("Ladder", f"`a {o1} b {o2} c` does not parse to a binary operation")
+                left[(o1, o2)] = True
+                continue
+            left[(o1, o2)] = not is_atom(e.left)
+    # o1 binds tighter than o2 iff it wins on both sides
+    tighter = {(o1, o2): left[(o1, o2)] and not left[(o2, o1)] for o1 in ops for o2 in ops if o1 != o2}
+    same = lambda x, y: x == y or (not tighter[(x, y)] and not tighter[(y, x)])  # noqa: E731
+    classes: list[list[str]] = []
+    for o in ops:
+        for c in classes:
+            if same(o, c[0]):
+                c.append(o)
+                break
+        else:
+            classes.append([o])
+    for c in classes:
+        for x in c:
+            for y in c:
+                if not same(x, y):
+                    rep.problem("Ladder", "`binds as tight as` is not transitive: the precedence relation of the parser is not a ladder", ops=[x, y])
+    import functools
+    classes.sort(key=functools.cmp_to_key(lambda c1, c2: -1 if tighter[(c2[0], c1[0])] else (1 if tighter[(c1[0], c2[0])] else 0)))
+    for i, c1 in enumerate(classes):
+        for c2 in classes[i + 1:]:
+            for x in c1:
+                for y in c2:
+                    if not tighter[(y, x)]:
+                        rep.problem("Ladder", "levels are not totally ordered", looser=x, tighter=y)
+    levels = []
+    for c in classes:
+        rights = {not left[(o, o)] for o in c}
+        mixed = {left[(x, y)] for x in c for y in c}
+        if len(rights) != 1 or len(mixed) != 1:
+            rep.problem("Ladder", "operators of one level associate differently", level=c)
+        levels.append((c, rights.pop()))
+    # operators that bind tighter than the unary operators
+    un_sp = [sp for _, _, sp in umap]
+    pow_ops = []
+    for o in ops:
+        kinds = set()
+        for u in un_sp:
+            e = top(f"{u} a {o} b")
+            kinds.add(isinstance(e, UnOp))
+        if len(kinds) != 1:
+            rep.problem("Ladder", f"unary operators disagree about {o}")
+        if kinds == {True}:
+            pow_ops.append(o)
+    bin_levels = [(c, r) for c, r in levels if not all(o in pow_ops for o in c)]
+    pow_level = [(c, r) for c, r in levels if all(o in pow_ops for o in c)]
+    if len(pow_level) != 1 or not pow_level[0][1] or (levels and levels[-1] != pow_level[0]):
+        rep.problem("Ladder", "the operators binding tighter than unary operators are not one right-associative level at the top", pow=pow_ops)
+    # the right operand of a power is a unary expression (2 ^ - 3), the left one an atom (handled by the table above)
+    for o in pow_ops:
+        for u in un_sp:
+            e = top(f"a {o} {u} b")
+            if not (isinstance(e, BinOp) and isinstance(e.right, UnOp)):
+                rep.problem("Ladder", f"`a {o} {u} b` is not read as a {o} ({u} b)")
+    # block end types: `return` directly followed by the token is an empty return list
+    import contextlib
+    import io
+    block_end = []
+    for t in [tt for tt in TokenType]:
+        text = {"EOF": ""}.get(t.name, t.value if isinstance(t.value, str) else None)
+        if t.name in ("NAME", "NUMBER", "STRING"):
+            continue
+        if text is None:
+            continue
+        if _return_list_is_empty_before(t, text):
+            block_end.append(t.name)
+    static_be = None
+    try:
+        from tumfl.parser import Parser
+        cand = [v for k, v in vars(Parser).items() if "BLOCK_END" in k and hasattr(v, "__iter__")]
+        if cand:
+            static_be = sorted({x.name for x in cand[0]}, key=[t.name for t in TokenType].index)
+    except Exception:  # noqa: BLE001
+        pass
+    if static_be is not None and static_be != block_end:
+        rep.info.setdefault("ladder_notes", []).append(f"class attribute *BLOCK_END* = {static_be} differs from probed {block_end}")
+    lv = ", ".join("([" + ", ".join(lstr(sym[o]) for o in c) + "], " + ("true" if r else "false") + ")" for c, r in bin_levels)
+    pw = ", ".join(lstr(sym[o]) for o in pow_ops)
+    bt = ", ".join(f"({lstr(k)}, {lstr(v)})" for k, v, _ in bmap)
+    ut = ", ".join(f"({lstr(k)}, {lstr(v)})" for k, v, _ in umap)
+    be = ", ".join(lstr(n) for n in block_end)
+    rep.info["ladder"] = {"levels": [(c, r) for c, r in levels], "unary": un_sp, "block_end": block_end}
+    return f"""/-! GENERATED by harness/extract.py from /repo by PROBING the real parser (tumfl.parse on `a o1 b o2 c`, `OP a`, `- a o b`, `return` + token) - do not edit. -/
 namespace Tumfl.Gen
 
-/-- binary levels from `_parse_exp` down to the level above `_parse_un_exp`: (operator symbols, uses the right-associative helper) -/
+/-- binary levels from the loosest to the one below the unary operators: (operator symbols, right associative) -/
 def ladderLevels : List (List String × Bool) := [{lv}]
-/-- operators of `_parse_pow_exp` (right associative, base `_parse_atom`, operand `_parse_un_exp`) -/
+/-- operators binding tighter than the unary operators (right associative; left operand an atom, right operand a unary expression) -/
 def powOps : List String := [{pw}]
-/-- `BinOp.from_token`: TokenType member name -> operator symbol -/
+/-- token type member name -> binary operator symbol (what `x = a OP b` parses to) -/
 def binaryTokens : List (String × String) := [{bt}]
-/-- token types accepted by `_parse_un_exp` with `UnOp.from_token`'s operator symbol -/
+/-- token type member name -> unary operator symbol (what `x = OP a` parses to) -/
 def unaryTokens : List (String × String) := [{ut}]
-/-- `Parser._BLOCK_END_TYPES` -/
+/-- token types in front of which `return` takes an empty expression list -/
 def blockEndTypes : List String := [{be}]
 
 end Tumfl.Gen
 """
+
+
+def _return_list_is_empty_before(t, text) -> bool:
+    """does `return` followed by this token take an empty return list?  Decided on the parser's own behaviour: parse a block `do return <tok>` with the
+    block parser and look at what it built before it stopped or failed."""
+    import contextlib
+    import io
+    from tumfl.error import TumflError
+    from tumfl.parser import Parser
+    src = "return" if t.name == "EOF" else "return " + text
+    with contextlib.redirect_stderr(io.StringIO()):
+        try:
+            p_ = Parser(src)
+            blk = p_.parse_chunk()
+        except TumflError:
+            return False
+        except Exception:  # noqa: BLE001
+            return False
+    # accepted as far as parse_chunk is concerned: the return list must be empty and the token must still be the current one
+    return blk.returns == [] and (p_.current_token.type == t)
 
 
 # --------------------------------------------------------------------------- formatter tables
